@@ -95,6 +95,27 @@ Proof. vm_compute. reflexivity. Qed.
 Lemma online_flag_writes : forallb write_ok online_writes = true.
 Proof. vm_compute. reflexivity. Qed.
 
+Lemma ctx_calls_swept : forallb ctx_ok ctx_calls = true.
+Proof. vm_compute. reflexivity. Qed.
+
+Lemma ctx_exclusions_are_tight : ctx_exclusions_tight ctx_calls = true.
+Proof. vm_compute. reflexivity. Qed.
+
+Lemma ctx_forwarded : forall c, In c ctx_calls -> c_has_ctx c = true -> c_risky c = true ->
+  ctx_listed c = false -> c_passes c = true.
+Proof.
+  intros c Hin Hh Hr Hl. pose proof ctx_calls_swept as H. rewrite forallb_forall in H.
+  specialize (H c Hin). unfold ctx_ok in H. rewrite Hh, Hr, Hl in H. simpl in H.
+  rewrite !orb_false_r in H. exact H.
+Qed.
+
+(* non-vacuity: the table has calls that must and do pass ctx, among them max_by / min_by *)
+Example ctx_calls_nonvacuous :
+  existsb (fun c => c_has_ctx c && c_risky c && negb (ctx_listed c) && c_passes c
+                    && str_eqb (c_callee c) [109;97;120;95;98;121]%N) ctx_calls = true /\
+  (30 <=? length (filter (fun c => c_has_ctx c && c_risky c && negb (ctx_listed c)) ctx_calls))%nat = true.
+Proof. vm_compute. split; reflexivity. Qed.
+
 Lemma sinks_sound : forall s, In s sinks -> in_scope s = true -> listed s = false ->
   forall atoms, eval_formula true atoms (s_cond s) <> Some true.
 Proof.
@@ -276,6 +297,13 @@ Lemma vy_eval_online : forall m t, online m = true ->
 Proof.
   intros m t Hm. unfold vy_eval_trace, vy_eval_result. rewrite Hm.
   destruct (is_literal t); repeat split; intro H; try reflexivity; try discriminate.
+Qed.
+
+(* input parsing never raises: a text is read as a value or kept as the string it is *)
+Lemma vy_eval_total : forall m t, vy_eval_result m t <> RRaises.
+Proof.
+  intros m t. unfold vy_eval_result.
+  destruct (online m); [destruct (is_literal t) | destruct (is_evaluable t)]; discriminate.
 Qed.
 
 Lemma function_call_online : forall m k, online m = true -> function_call_trace m k = [].
